@@ -2,6 +2,7 @@ package main
 
 import (
 	"fmt"
+	"os"
 	"go/types"
 	"strings"
 
@@ -41,7 +42,9 @@ func (ft *funcTrans) calleeContract(com *ssa.CallCommon) *Contract {
 	}
 	// call through a func-typed struct field: contract keyed "funcfield:<pkgpath>.<Struct>.<Field>"
 	if key := funcFieldKey(com.Value); key != "" {
-		return ft.p.Contracts[key]
+		if c := ft.p.Contracts[key]; c != nil {
+			return c
+		}
 	}
 	// call of a value of a named func type: contract keyed "functype:<pkgpath>.<Type>"
 	if nt, ok := com.Value.Type().(*types.Named); ok {
@@ -167,7 +170,11 @@ func (ft *funcTrans) call(in ssa.CallInstruction, val *ssa.Call) {
 		sig = com.Value.Type().Underlying().(*types.Signature)
 	}
 	specialised := strings.Contains(c.Key, "<")
+	opaqueLocs := map[int]*Loc{}
 	for _, a := range com.Args {
+		if v := ft.valOf(a); v.Opaque {
+			opaqueLocs[len(actuals)] = v.L
+		}
 		if specialised {
 			if mi, ok := a.(*ssa.MakeInterface); ok && strings.Contains(c.Key, "<"+types.TypeString(mi.X.Type(), nil)+">") {
 				actuals = append(actuals, ft.termOf(mi.X))
@@ -193,9 +200,17 @@ func (ft *funcTrans) call(in ssa.CallInstruction, val *ssa.Call) {
 	} else {
 		pkg = ft.pkgTypes()
 	}
+	if !com.IsInvoke() && callee == nil {
+		// dynamic call of a function value: "self" names the value called
+		env["self"] = ft.termOf(com.Value)
+	}
+	opaqueByName := map[string]*Loc{}
 	bind := func(name string, t Term, formal types.Type) {
 		if formal != nil && (t.Sort.Kind == KUntypedInt || t.Sort.Kind == KUntypedNil) {
 			t = ft.coerceTo(t, w.sortOf(formal))
+		}
+		if l, ok := opaqueLocs[idx]; ok && name != "" {
+			opaqueByName[name] = l
 		}
 		if name != "" && name != "_" {
 			env[name] = t
@@ -218,7 +233,7 @@ func (ft *funcTrans) call(in ssa.CallInstruction, val *ssa.Call) {
 		ai++
 	}
 	pre := st.clone()
-	ecPre := &evalCtx{w: w, pkg: pkg, env: env, st: pre, old: pre, lets: c.Lets}
+	ecPre := &evalCtx{w: w, pkg: pkg, env: env, st: pre, old: pre, lets: c.Lets, opaque: opaqueByName, ft: ft}
 	for i, r := range c.Requires {
 		t := ecPre.evalBool(r.E)
 		o := ft.obligation("requires", fmt.Sprintf("call%d.%s.requires%d", ft.nCalls, shortName(name), i+1), r.Src, t.S)
@@ -231,9 +246,14 @@ func (ft *funcTrans) call(in ssa.CallInstruction, val *ssa.Call) {
 	// havoc
 	if !c.HasAssigns && inferredFrame {
 		ft.bumpAlloc(st)
+	} else if !c.HasAssigns && len(c.Preserves) > 0 {
+		ft.havocAllExcept(st, c.Preserves)
 	} else if !c.HasAssigns {
 		ft.havocAll(st)
 	} else {
+		if len(c.Preserves) > 0 {
+			ft.havocAllExcept(st, c.Preserves)
+		}
 		for _, a := range c.Assigns {
 			ft.havocDesignator(ecPre, a.E, st, pre)
 		}
@@ -281,7 +301,7 @@ func (ft *funcTrans) call(in ssa.CallInstruction, val *ssa.Call) {
 			ft.assume(fmt.Sprintf("(= %s %s)", ft.vals[val].T.S, t))
 		}
 	}
-	ecPost := &evalCtx{w: w, pkg: pkg, env: envPost, st: st, old: pre, lets: c.Lets}
+	ecPost := &evalCtx{w: w, pkg: pkg, env: envPost, st: st, old: pre, lets: c.Lets, opaque: opaqueByName, ft: ft}
 	calleeBV := c.Mode == "bv"
 	if calleeBV != w.BV && !c.Trusted {
 		// contract written for the other integer mode: only its frame is used here
@@ -306,6 +326,9 @@ func (ft *funcTrans) call(in ssa.CallInstruction, val *ssa.Call) {
 		if evalErr != nil {
 			// e.g. a spec function of another property's spec file: the clause is simply not assumed
 			w.assumptions[fmt.Sprintf("postcondition of %s not used here (%v)", name, evalErr)] = true
+			if os.Getenv("GOVC_DEBUG") != "" {
+				fmt.Fprintf(os.Stderr, "DEBUG: postcondition of %s skipped: %v\n", name, evalErr)
+			}
 			continue
 		}
 		ft.assume(t.S)
@@ -435,7 +458,13 @@ func (ft *funcTrans) desigHeaps(ec *evalCtx, e Expr) []string {
 			}
 		}
 	case *EUnary:
-		// *p : whole object
+		// *p where p is an opaque pointer (address of a struct-valued field): that field of that object
+		if id, ok := x.X.(*EIdent); ok && x.Op == "deref" {
+			if l, ok := ec.opaque[id.Name]; ok {
+				return []string{l.Heap}
+			}
+			return []string{"?opaque"}
+		}
 	}
 	panic(unsupportedErr("assigns designator " + e.String()))
 }
@@ -446,6 +475,20 @@ func (ft *funcTrans) havocDesignator(ecPre *evalCtx, e Expr, st, pre *State) {
 	w := ft.w
 	heaps := ft.desigHeaps(ecPre, e)
 	h := heaps[0]
+	if h == "?opaque" {
+		return
+	}
+	if u, ok := e.(*EUnary); ok && u.Op == "deref" {
+		id := u.X.(*EIdent)
+		l := ecPre.opaque[id.Name]
+		oldS := w.heapSym(st, h)
+		nw := ft.newHeapVersion(st, h)
+		fv := w.declConstRaw(w.fresh("hv"), l.Root.Name)
+		w.addFact(fmt.Sprintf("(= %s (store %s %s %s))", nw, oldS, l.Base, fv))
+		// data-structure invariant of the new value
+		ft.assumeWellTyped(Term{fv, l.Root}, st, ft.reach[ft.cur])
+		return
+	}
 	old := w.heapSym(st, h)
 	switch x := e.(type) {
 	case *EField:
